@@ -462,6 +462,17 @@ CHECKS += [
          technique="lifted weighting of real shadow snapshots with z3 state entries; z3 QF_NRA equality proofs (tolerance 1e-6)"),
 ]
 
+CHECKS += [
+    dict(property_id="C68", category="other", engine=E1,
+         text="Partial (kernel matrices and cost functions): with an UNINTERPRETED kernel (a fresh symbolic real per pair of data points; symmetric / unit diagonal as the function's "
+              "contract states) the REAL kernel_matrix, square_kernel_matrix, polarity and target_alignment run on 1-4 data points and 4 label vectors, with and without "
+              "normalisation and class-label rescaling; z3 proves every entry / value equal to the definition for ALL kernels (alignment after cross-multiplying its square roots "
+              "plus a sign obligation) and the kernel is called exactly on the required pairs.",
+         note=PROOF_NOTE + " Category 'other' (partial): threshold / displace / flip / closest-PSD / depolarizing-mitigation post-processing are defined through eigendecompositions and "
+              "convex optimisation - positive semidefiniteness of their output is not a polynomial identity - and are outside; 4-point alignments stay inconclusive (z3 timeout).",
+         technique="lifted execution of the kernel utilities on an uninterpreted symbolic kernel; z3 QF_NRA equality proofs"),
+]
+
 _NOT_BUILT = "claimed in DESIGN.md §4 but its solver-based check is not built yet in this tree"
 NOT_APPLICABLE_REASONS = {
     "C04": "equality/hash: Python hash() of concrete payloads and tolerance-based allclose relations; no exact relation a solver can decide",
